@@ -28,6 +28,33 @@ var profiles = map[string]*Profile{
 			"break": 2, "lazybreak": 2, "continue": 2, "ctx": 2, "counter": 2, "dynprint": 2, "dyncond": 1}},
 }
 
+func regionProfile(kind string) *Profile {
+	return &Profile{Name: "region-" + kind, MaxDepth: 3, MaxItems: 5, Regions: true, RegionKind: kind, Letters: true, PfxSfx: true, Mods: true, Includes: true,
+		W: map[string]int{"text": 4, "print": 6, "region": 6, "if": 1, "cloop": 1, "include": 1}}
+}
+
+// mergeResults adds the counts, histogram and violations of b into a.
+func mergeResults(a, b *Result) *Result {
+	if b.InfraError != "" && a.InfraError == "" {
+		a.InfraError = b.InfraError
+	}
+	a.Evaluations += b.Evaluations
+	a.Nontrivial += b.Nontrivial
+	a.ModelEvals += b.ModelEvals
+	a.Mismatches += b.Mismatches
+	a.OracleFails += b.OracleFails
+	for k, v := range b.Histogram {
+		a.Histogram["region-stream/"+k] += v
+	}
+	a.Samples = append(a.Samples, b.Samples...)
+	a.Notes = append(a.Notes, b.Notes...)
+	for _, v := range b.Violations {
+		a.AddViolation(v)
+	}
+	a.Rule += " || region stream: " + b.Rule
+	return a
+}
+
 func init() {
 	for _, p := range []string{"C03", "C14", "C16", "ALL", "REGION", "C02", "C01", "C11", "C15"} {
 		p := p
